@@ -76,7 +76,7 @@ def main():
                      'kind_free_text': 'seeded workload drivers over the real code + run-time wrapper monitors + offline checkers/reference oracles; 16-way subprocess sharding; three-valued verdicts'}],
         'checks': checks,
         'not_applicable': na,
-        'notes': 'exit 0 held / 1 VIOLATION / 2 INCONCLUSIVE (required monitor counter or anchored function never reached, too few judged cases, shard failure). VERIF_SEED and VERIF_TIER honoured. Known findings: known_findings.json (one open entry: C15 D15). Seeded changes and which checks catch them: seeded/INDEX.md; DESIGN.md section 5.',
+        'notes': 'exit 0 held / 1 VIOLATION / 2 INCONCLUSIVE (required monitor counter or anchored function never reached, too few judged cases, shard failure). VERIF_SEED and VERIF_TIER honoured. Every run uses 16 worker processes, each under its own PYTHONHASHSEED, every fourth with asserts stripped (PYTHONOPTIMIZE=1); VERIF_NPROC limits how many run at a time. Known findings: known_findings.json (open entries: C15 D15 and D17; fixed entries carry the /repo commit). Seeded changes (seeded/<id>/patch.diff, demo.py, meta.json) and which checks catch them: DESIGN.md section 5; tools/reverify_seeds.py re-applies all of them.',
     }
     if not na:
         del m['not_applicable']
